@@ -1,8 +1,7 @@
 /-
   C09 — the log's tree hash and stored-hash layout are exactly RFC 6962 for every log; text codecs.
   Property theorems only; helpers in Proofs/TlogBasic.lean, Proofs/TlogTH.lean, Proofs/TlogCodec.lean.
-  The deep theorems (storedHashIndex_layout, split/index bijection, storedHashCount_eq, store_invariant,
-  treeHash_eq_mth) are stated in lean/PENDING.md.
+  Store invariant and TreeHash = MTH: Proofs/TlogStore{Mth,Inv,Tree}.lean.  What is still open is in lean/PENDING.md.
 -/
 import ModVerif.Model.Tlog
 import ModVerif.Model.TlogNote
@@ -11,6 +10,11 @@ import ModVerif.Proofs.TlogBasic
 import ModVerif.Proofs.TlogTH
 import ModVerif.Proofs.TlogIndex
 import ModVerif.Proofs.TlogCodec
+import ModVerif.Proofs.TlogStoreInv
+import ModVerif.Proofs.TlogStoreTree
+import ModVerif.Proofs.TlogStoreSplit
+import ModVerif.Proofs.TlogStoreRange
+import ModVerif.Proofs.TlogStoreCodec
 namespace ModVerif.Props.C09
 open ModVerif ModVerif.Tlog ModVerif.TlogTH ModVerif.TlogNote
 
@@ -72,12 +76,201 @@ theorem storedHashIndex_zero_succ (n : Nat) :
     storedHashIndex 0 (n + 1) = storedHashIndex 0 n + 1 + RFC6962.tz (n + 1) :=
   Tlog.storedHashIndex_zero_succ n
 
+/-! ### position ↔ (level, offset) is a bijection -/
+
+/-- ★ `SplitStoredHashIndex(StoredHashIndex(l, k)) = (l, k)` for every coordinate whose position is an int64
+    (in particular for every complete subtree of a log of fewer than `2^62` records). -/
+theorem split_storedHashIndex (l k : Nat) (h : storedHashIndex l k < 2 ^ 63) :
+    splitStoredHashIndex (storedHashIndex l k) = .ok (l, k) :=
+  TlogStore.split_storedHashIndex l k h
+
+example : storedHashIndex 3 5 < 2 ^ 63 := by decide +kernel
+
+/-- ★ `StoredHashIndex(SplitStoredHashIndex(p)) = p` -/
+theorem storedHashIndex_split (p l k : Nat) (hp : p < 2 ^ 63) (h : splitStoredHashIndex p = .ok (l, k)) :
+    storedHashIndex l k = p :=
+  TlogStore.storedHashIndex_split p l k hp h
+
+example : (92 : Nat) < 2 ^ 63 ∧ isOk (splitStoredHashIndex 92) (3, 5) = true := by decide +kernel
+
+/-- ★ `SplitStoredHashIndex` is total on the int64 range: its "bad math" panic is unreachable and its loop ends
+    (the model's fuel `log2 p + 3` is never exhausted; the loop runs at most `(log2 p)/2 + 2` times). -/
+theorem splitStoredHashIndex_total (p : Nat) (hp : p < 2 ^ 63) : ∃ l k, splitStoredHashIndex p = .ok (l, k) :=
+  TlogStore.split_total p hp
+
+/-- ★ on the dense store of `N` records the two maps are mutually inverse bijections between the positions
+    `[0, StoredHashCount N)` and the complete subtrees `(l, k)`, `(k+1)·2^l ≤ N`, and `SplitStoredHashIndex` reads
+    off the specification's layout. -/
+theorem position_coordinate_bijection (N : Nat) (hN : N < 2 ^ 62) :
+    (∀ p, p < storedHashCount N → ∃ l k, splitStoredHashIndex p = .ok (l, k) ∧
+        (RFC6962.layout N)[p]? = some (l, k) ∧ (k + 1) * 2 ^ l ≤ N ∧ storedHashIndex l k = p) ∧
+    (∀ l k, (k + 1) * 2 ^ l ≤ N → storedHashIndex l k < storedHashCount N ∧
+        splitStoredHashIndex (storedHashIndex l k) = .ok (l, k)) := by
+  have hcount : storedHashCount N = Tlog.S N := by
+    rw [Tlog.storedHashCount_eq_index N (by omega), Tlog.storedHashIndex_zero_eq]
+  have hS := Tlog.S_le_two_mul N
+  constructor
+  · intro p hp
+    rw [hcount] at hp
+    obtain ⟨l, k, h1, h2, h3⟩ := TlogStore.split_eq_layout N p hp (by omega)
+    exact ⟨l, k, h1, h2, h3, TlogStore.storedHashIndex_split p l k (by omega) h1⟩
+  · intro l k h
+    have hlay := Tlog.storedHashIndex_layout N l k h
+    have hlt : storedHashIndex l k < (RFC6962.layout N).length := by
+      apply Nat.lt_of_not_le
+      intro hc
+      rw [List.getElem?_eq_none hc] at hlay
+      cases hlay
+    rw [Tlog.layout_length] at hlt
+    exact ⟨by omega, TlogStore.split_storedHashIndex l k (by omega)⟩
+
+example : (13 : Nat) < 2 ^ 62 := by decide
+
+/-! ### the store invariant and the tree hash, for every log -/
+
+/-- ★ Store invariant.  For every sequence `D` of records (fewer than `2^64`: `bits.TrailingZeros64` is the
+    2-adic valuation only there), every hash function pair `leaf`/`node` and every value `empty`:
+    appending the records one at a time and storing the returned hashes at consecutive positions never fails
+    (every read of `StoredHashes` is inside the store), the store has the documented length, and every position
+    `p`, whose coordinate in the specification's layout is `(l, k)`, holds the RFC 6962 tree hash of the records
+    `[k·2^l, (k+1)·2^l)`.  (Proof: induction over the appended records, `TlogStore.appendAll_ok`.) -/
+theorem store_invariant {H : Type} (leaf : Bytes → H) (node : H → H → H) (empty : H) (D : List Bytes)
+    (hD : D.length < 2 ^ 64) :
+    ∃ st, buildStore leaf node D = .ok st ∧ st.length = storedHashCount D.length ∧
+      ∀ p l k : Nat, (RFC6962.layout D.length)[p]? = some (l, k) →
+        st[p]? = some (RFC6962.mth node empty (RFC6962.leavesOf (D.map leaf) l k)) := by
+  obtain ⟨st, h1, h2, h3⟩ := TlogStore.buildStore_ok leaf node empty D hD
+  refine ⟨st, h1, ?_, h3⟩
+  rw [h2, Tlog.storedHashCount_eq_index _ (by omega), Tlog.storedHashIndex_zero_eq]
+
+/-- the same, as a statement about whatever store `buildStore` returned -/
+theorem store_invariant_of_ok {H : Type} (leaf : Bytes → H) (node : H → H → H) (empty : H) (D : List Bytes)
+    (hD : D.length < 2 ^ 64) (st : List H) (h : buildStore leaf node D = .ok st) :
+    st.length = storedHashCount D.length ∧
+      ∀ p l k : Nat, (RFC6962.layout D.length)[p]? = some (l, k) →
+        st[p]? = some (RFC6962.mth node empty (RFC6962.leavesOf (D.map leaf) l k)) := by
+  obtain ⟨st', h1, h2⟩ := store_invariant leaf node empty D hD
+  rw [h1] at h
+  cases h
+  exact h2
+
+/-- in particular every complete subtree `(l, k)` of the log is stored at `StoredHashIndex(l, k)` -/
+theorem store_get {H : Type} (leaf : Bytes → H) (node : H → H → H) (empty : H) (D : List Bytes)
+    (hD : D.length < 2 ^ 64) (st : List H) (h : buildStore leaf node D = .ok st) (l k : Nat)
+    (hk : (k + 1) * 2 ^ l ≤ D.length) :
+    st[storedHashIndex l k]? = some (RFC6962.mth node empty (RFC6962.leavesOf (D.map leaf) l k)) :=
+  (store_invariant_of_ok leaf node empty D hD st h).2 _ l k (Tlog.storedHashIndex_layout D.length l k hk)
+
+/-- non-vacuity: the 13-record example log satisfies the hypotheses (and `store_witness` evaluates the conclusion) -/
+example : (recs 13).length < 2 ^ 64 ∧ ∃ st, buildStore TH.leaf TH.node (recs 13) = .ok st := by
+  refine ⟨by decide, ?_⟩
+  obtain ⟨st, h, _⟩ := store_invariant TH.leaf TH.node TH.empty (recs 13) (by decide)
+  exact ⟨st, h⟩
+
+/-- ★ `subTreeIndex lo hi` (no panic, no fuel exhaustion) lists the positions `StoredHashIndex(l, k)` of the maximal
+    complete subtrees covering `[lo, hi)` from left to right, for every interval inside one aligned block
+    (in particular `lo = 0`), on the int64 range; `numTree` of `subTreeHash` counts the same blocks. -/
+theorem subTreeIndex_spec (lo hi : Nat) (hle : lo ≤ hi) (hal : TlogStore.Aligned lo hi) (hr : hi < 2 ^ 63) :
+    ∃ cs : List (Nat × Nat),
+      subTreeIndex lo hi = .ok (cs.map fun c => storedHashIndex c.1 c.2) ∧
+      numTreeF (hi - lo) lo hi = .ok cs.length ∧ TlogStore.Cover cs lo hi :=
+  TlogStore.subTreeIndex_spec lo hi hle hal hr
+
+example : TlogStore.Aligned 0 13 ∧ TlogStore.Aligned 8 13 := by
+  refine ⟨TlogStore.aligned_zero 13, 3, ⟨1, by decide⟩, by decide⟩
+
+/-- ★ `TreeHash(m)` over the store built from `D` is the RFC 6962 Merkle tree hash of the first `m` records, for every
+    `m ≤ |D|` (`m < 2^63`: an int64). -/
+theorem treeHash_eq_mth {H : Type} (leaf : Bytes → H) (node : H → H → H) (empty : H) (D : List Bytes)
+    (hD : D.length < 2 ^ 64) (st : List H) (h : buildStore leaf node D = .ok st) (m : Nat)
+    (hm : m ≤ D.length) (hr : m < 2 ^ 63) :
+    treeHash node empty m (storeReader st) = .ok (RFC6962.mth node empty ((D.map leaf).take m)) :=
+  TlogStore.treeHash_of_storeOK leaf node empty D st
+    (TlogStore.storeOK_of_buildStore leaf node empty D hD st h) m hm hr
+
+/-- non-vacuity of `treeHash_eq_mth`: the example log, `m = 7` -/
+example : ∃ st, buildStore TH.leaf TH.node (recs 13) = .ok st ∧ 7 ≤ (recs 13).length ∧ 7 < 2 ^ 63 := by
+  obtain ⟨st, h, _⟩ := store_invariant TH.leaf TH.node TH.empty (recs 13) (by decide)
+  exact ⟨st, h, by decide, by decide⟩
+
+/-- ★★ Property C09 in one statement.  For every sequence `D` of fewer than `2^62` records (so that every position is an
+    int64), every `leaf`/`node` and every `empty`: appending the records one at a time and storing the returned hashes at
+    consecutive positions succeeds and yields a store `st` such that
+    (1) its length is the documented `StoredHashCount`;
+    (2) every position `p` of the store splits into a coordinate `(l, k)` of a complete subtree of the log,
+        `StoredHashIndex(l, k) = p`, and `st[p]` is the RFC 6962 hash of the records `[k·2^l, (k+1)·2^l)`;
+    (3) conversely every complete subtree `(l, k)` of the log has its position inside the store and splits back;
+    (4) for every `m ≤ |D|`, `TreeHash(m)` over the store is the RFC 6962 Merkle tree hash of the first `m` records. -/
+theorem C09_main {H : Type} (leaf : Bytes → H) (node : H → H → H) (empty : H) (D : List Bytes)
+    (hD : D.length < 2 ^ 62) :
+    ∃ st, buildStore leaf node D = .ok st ∧ st.length = storedHashCount D.length ∧
+      (∀ p, p < st.length → ∃ l k, splitStoredHashIndex p = .ok (l, k) ∧ storedHashIndex l k = p ∧
+          (k + 1) * 2 ^ l ≤ D.length ∧
+          st[p]? = some (RFC6962.mth node empty (RFC6962.leavesOf (D.map leaf) l k))) ∧
+      (∀ l k, (k + 1) * 2 ^ l ≤ D.length → storedHashIndex l k < st.length ∧
+          splitStoredHashIndex (storedHashIndex l k) = .ok (l, k)) ∧
+      (∀ m, m ≤ D.length →
+          treeHash node empty m (storeReader st) = .ok (RFC6962.mth node empty ((D.map leaf).take m))) := by
+  obtain ⟨st, h1, h2, h3⟩ := store_invariant leaf node empty D (by omega)
+  obtain ⟨b1, b2⟩ := position_coordinate_bijection D.length hD
+  refine ⟨st, h1, h2, ?_, ?_, ?_⟩
+  · intro p hp
+    obtain ⟨l, k, c1, c2, c3, c4⟩ := b1 p (by omega)
+    exact ⟨l, k, c1, c4, c3, h3 p l k c2⟩
+  · intro l k hk
+    rw [h2]
+    exact b2 l k hk
+  · intro m hm
+    exact treeHash_eq_mth leaf node empty D (by omega) st h1 m hm (by omega)
+
+example : (recs 13).length < 2 ^ 62 := by decide
+
+/-! ### no int64 overflow for logs of fewer than 2^61 records -/
+
+/-- StoredHashIndex(l, k) for a complete subtree of a log of `N < 2^61` records: the loop variable `n` of the first
+    loop stays below `N`, the level below 61, every partial sum of the second loop below `2^62`, the result below
+    `2^63`. -/
+theorem storedHashIndex_int64 (N l k : Nat) (hN : N < 2 ^ 61) (h : (k + 1) * 2 ^ l ≤ N) :
+    (∀ j, j ≤ l → descend j k < N) ∧ l < 61 ∧ (∀ f, sumHalves f (descend l k) < 2 ^ 62) ∧
+      storedHashIndex l k < 2 ^ 63 :=
+  TlogStore.storedHashIndex_int64 N l k hN h
+
+example : (13 : Nat) < 2 ^ 61 ∧ (1 + 1) * 2 ^ 2 ≤ 13 := by decide
+
+/-- StoredHashCount(N) ≤ 2N -/
+theorem storedHashCount_int64 (N : Nat) (hN : N ≤ 2 ^ 64) : storedHashCount N ≤ 2 * N :=
+  TlogStore.storedHashCount_int64 N hN
+
+/-- SplitStoredHashIndex(index), `index < 2^62`: with `n` any record whose leaf is at or before `index`, the start value
+    satisfies `StoredHashIndex(0, index/2) ≤ index` and every `x` the loop computes up to `n` is at most `2·(index+1)`. -/
+theorem split_int64 (index n : Nat) (h1 : storedHashIndex 0 n ≤ index) (hr : index < 2 ^ 62) :
+    storedHashIndex 0 (index / 2) ≤ index ∧
+      ∀ n', n' ≤ n → storedHashIndex 0 n' + 1 + trailingZeros64 (n' + 1) ≤ 2 * (index + 1) := by
+  simp only [Tlog.storedHashIndex_zero_eq] at h1 ⊢
+  exact TlogStore.split_int64 index n h1 hr
+
+example : storedHashIndex 0 3 ≤ 5 ∧ (5 : Nat) < 2 ^ 62 := by decide +kernel
+
+/-- subTreeIndex(lo, hi), `hi < 2^61`: succeeds and every index it returns is below `2^63`. -/
+theorem subTreeIndex_int64 (lo hi : Nat) (hle : lo ≤ hi) (hal : TlogStore.Aligned lo hi) (hr : hi < 2 ^ 61) :
+    ∃ idx, subTreeIndex lo hi = .ok idx ∧ ∀ x ∈ idx, x < 2 ^ 63 :=
+  TlogStore.subTreeIndex_int64 lo hi hle hal hr
+
 /-! ### tree heads, records and hashes survive their text encodings unchanged -/
 
 /-- ★ every tree head with a size in `[0, 2^63)` and a 32-byte hash survives FormatTree / ParseTree -/
 theorem parseTree_formatTree (t : Tree) (hn : 0 ≤ t.n) (hm : t.n ≤ Decimal.int64Max) (hl : t.hash.length = 32) :
     parseTree (formatTree t) = some t :=
   TlogNote.parseTree_formatTree t hn hm hl
+
+/-- ParseTree reads only the first three lines: anything after a formatted tree head is ignored (up to ParseTree's
+    own 1 MB limit on the whole text) -/
+theorem parseTree_ignores_later_lines (t : Tree) (extra : Bytes) (hn : 0 ≤ t.n) (hm : t.n ≤ Decimal.int64Max)
+    (hl : t.hash.length = 32) (hx : (formatTree t ++ extra).length ≤ 1000000) :
+    parseTree (formatTree t ++ extra) = some t :=
+  TlogStore.parseTree_ignores_later_lines t extra hn hm hl hx
+
+example : (formatTree ⟨5, List.replicate 32 7⟩ ++ B "extra line\n").length ≤ 1000000 := by decide +kernel
 
 /-- ★ every record (any int64 id, any text FormatRecord accepts) survives FormatRecord / ParseRecord, and the
     parser stops exactly after it: whatever follows (`rest`, arbitrary bytes) is returned untouched -/
